@@ -21,13 +21,18 @@ class GctfRead(Contract):
     prop = "C17"
     module = "ioutils"
     qual = "gctf_read"
-    configs = [{"phase": True}, {"phase": False}]
+    # STAR columns are identified by label: the usual gctf layout and two legitimate other orders of the same labels
+    configs = [{"phase": ph, "order": o} for ph in (True, False) for o in ("usual", "angle_first", "phase_first")]
 
     def cfg_name(self, cfg):
-        return f"phase_column={cfg['phase']}"
+        return f"phase_column={cfg['phase']}" + ("" if cfg["order"] == "usual" else f",order={cfg['order']}")
 
     def bind(self, cx, cfg):
         cols = ["rlnMicrographName", "rlnDefocusU", "rlnDefocusV", "rlnDefocusAngle"] + (["rlnPhaseShift"] if cfg["phase"] else []) + ["rlnFinalResolution"]
+        if cfg["order"] == "angle_first":
+            cols = ["rlnDefocusAngle", "rlnMicrographName", "rlnDefocusV", "rlnFinalResolution", "rlnDefocusU"] + (["rlnPhaseShift"] if cfg["phase"] else [])
+        elif cfg["order"] == "phase_first":
+            cols = (["rlnPhaseShift"] if cfg["phase"] else []) + ["rlnFinalResolution", "rlnDefocusU", "rlnDefocusV", "rlnMicrographName", "rlnDefocusAngle"]
         fr = frames.fresh_frame(cols, "f_")
 
         class SF:
